@@ -141,7 +141,7 @@ def same(ctx, rep):
             import c10
             Ga, _ = c10.call_graph(a0)
             Gb, _ = c10.call_graph(b0)
-            owners = {c10.attributed_owner(a0, Ga, fn), c10.attributed_owner(b0, Gb, fn)}
+            owners = common.known_owners(a0, fn) | common.known_owners(b0, fn)      # every known function that reaches it
             nested = [b_ for b_ in BOUNDARY if fn.startswith(b_ + "::")]
             if nested:
                 owners = set(nested)        # an item declared inside a boundary function (a table, an inner fn) is part of it
